@@ -162,6 +162,8 @@ def lit_equal(o, v) -> Optional[bool]:
         return True
     if v is None or o is None or isinstance(v, (enum.Enum,)) or isinstance(o, enum.Enum):
         if isinstance(v, enum.Enum) and isinstance(o, enum.Enum):
+            if isinstance(v, enum.Flag) and type(o) is type(v):
+                return o._value_ == v._value_  # composite / zero flag values are instances without a member name
             return o is v
         return False if (v is None or o is None) else (type(o) is type(v) and o == v)
     if isinstance(v, _IDENTITY_TYPES) or isinstance(o, _IDENTITY_TYPES):
@@ -396,6 +398,16 @@ def member(o, t: Ty) -> Optional[bool]:
         return _type_of(o, t.args[0])
     if k == "Callable":
         return False if not callable(o) else None
+    if k == "CallSig":
+        if not callable(o):
+            return False
+        ps = _CS_PARAMS_OF.get(o) if isinstance(o, types.FunctionType) else None
+        if ps is None:
+            return None
+        if ps == t.args[0]:
+            return True
+        # some call the signature permits (binds, every argument in its annotation) fails on o  =>  o is not a member
+        return False if callsig_mask(t.args[0]) & ~callsig_mask(ps) else None
     if k == "Gen":
         views = GEN_VIEWS.get(t.extra)
         if views is None or len(views) != len(t.args):
@@ -470,6 +482,170 @@ def _match_pattern(elems: list, members: list) -> Optional[bool]:
 
 
 # ---------------------------------------------------------------------------
+# TypedDict classes read back from CPython's own bookkeeping
+
+
+def _strip_qualifiers(hint):
+    import typing_extensions
+
+    while typing.get_origin(hint) in (typing_extensions.Required, typing_extensions.NotRequired, typing_extensions.ReadOnly,
+                                      getattr(typing, "Required", None), getattr(typing, "NotRequired", None),
+                                      getattr(typing, "ReadOnly", None)) and typing.get_origin(hint) is not None:
+        (hint,) = typing.get_args(hint)
+    return hint
+
+
+def typeddict_from_class(cls) -> Ty:
+    """The TypedDict term of a TypedDict class as CPYTHON recorded it: the keys of __annotations__ (own and inherited),
+    required iff listed in __required_keys__ (which must partition the keys with __optional_keys__); value types must be
+    plain classes."""
+    hints = dict(cls.__annotations__)
+    req, opt = cls.__required_keys__, cls.__optional_keys__
+    if set(hints) != set(req) | set(opt) or set(req) & set(opt):
+        raise ValueError(f"{cls.__name__}: __required_keys__/__optional_keys__ do not partition the annotations")
+    fields = {}
+    for name, hint in hints.items():
+        inner = _strip_qualifiers(hint)
+        if not isinstance(inner, type):
+            raise ValueError(f"{cls.__name__}.{name}: unsupported value type {inner!r}")
+        fields[name] = (Cls(inner), name in req)
+    return TypedDictT(cls.__name__, fields)
+
+
+# ---------------------------------------------------------------------------
+# Callable signature types with an EXECUTABLE membership.
+# A signature is a tuple of parameters (name, kind, has_default, type name); every signature returns None.  For each
+# signature a reference function is generated whose body raises unless every bound argument is an instance of its
+# annotation.  A call is PERMITTED by a signature iff its reference function runs it (CPython binds, the body checks).
+# A function g belongs to the callable type of signature E only if every call E permits also runs on g; this is
+# examined on a fixed finite pool of calls, so only NON-membership is ever definite (a counterexample call exists).
+
+PO, PK, VA, KO, VK = "po", "pk", "va", "ko", "vk"
+CALLSIG_TYPES = {"int": ("0", 1), "str": ("''", "s")}  # type name -> (default source, the pool value of that type)
+CALLSIG_KW_NAMES = ("a", "b", "zz")  # zz is no parameter's name: only **kwargs can take it
+
+
+class CallSigBad(Exception):
+    """Raised by a reference function: the named parameter received an object outside its annotation."""
+
+
+def CallSig(params) -> Ty:
+    return Ty("CallSig", (tuple(tuple(p) for p in params),))
+
+
+def callsig_params_text(ps) -> str:
+    parts = []
+    n_po = sum(1 for p in ps if p[1] == PO)
+    seen_star = False
+    npo = 0
+    for n, k, d, t in ps:
+        if k == VA:
+            parts.append(f"*{n}: {t}")
+            seen_star = True
+            continue
+        if k == VK:
+            parts.append(f"**{n}: {t}")
+            continue
+        if k == KO and not seen_star:
+            parts.append("*")
+            seen_star = True
+        parts.append(f"{n}: {t}" + (f" = {CALLSIG_TYPES[t][0]}" if d else ""))
+        if k == PO:
+            npo += 1
+            if npo == n_po:
+                parts.append("/")
+    return ", ".join(parts)
+
+
+_CS_MODULE = None
+_CS_INDEX: dict = {}  # params -> (function, protocol class)
+_CS_PARAMS_OF: dict = {}  # reference function -> params
+_CS_MASK: dict = {}
+_CS_CALLS: list = []
+
+
+def _callsig_module():
+    global _CS_MODULE
+    if _CS_MODULE is None:
+        import sys
+
+        _CS_MODULE = types.ModuleType("vp_callsigs")  # importable by name: pyanalyze resolves classes through __module__
+        _CS_MODULE.__dict__["CallSigBad"] = CallSigBad
+        exec("from typing_extensions import Protocol", _CS_MODULE.__dict__)
+        sys.modules[_CS_MODULE.__name__] = _CS_MODULE
+    return _CS_MODULE
+
+
+def _callsig_build(ps):
+    ps = tuple(tuple(p) for p in ps)
+    got = _CS_INDEX.get(ps)
+    if got is None:
+        mod = _callsig_module()
+        i = len(_CS_INDEX)
+        checks = []
+        for n, k, _d, t in ps:
+            if k == VA:
+                checks.append(f"    for _v in {n}:\n        if not isinstance(_v, {t}): raise CallSigBad({n!r})")
+            elif k == VK:
+                checks.append(f"    for _v in {n}.values():\n        if not isinstance(_v, {t}): raise CallSigBad({n!r})")
+            else:
+                checks.append(f"    if not isinstance({n}, {t}): raise CallSigBad({n!r})")
+        text = callsig_params_text(ps)
+        src = (f"def f{i}({text}) -> None:\n" + ("\n".join(checks) or "    pass") + "\n"
+               f"class P{i}(Protocol):\n    def __call__(self{', ' if text else ''}{text}) -> None: ...\n")
+        exec(compile(src, "<vp_callsigs>", "exec", dont_inherit=True), mod.__dict__)
+        got = _CS_INDEX[ps] = (mod.__dict__[f"f{i}"], mod.__dict__[f"P{i}"])
+        _CS_PARAMS_OF[got[0]] = ps
+    return got
+
+
+def callsig_function(ps):
+    """The reference function of the signature (also THE canonical member of its callable type)."""
+    return _callsig_build(ps)[0]
+
+
+def callsig_protocol(ps):
+    """A Protocol class whose __call__ has the signature."""
+    return _callsig_build(ps)[1]
+
+
+def callsig_calls() -> list:
+    """The fixed pool of calls: 0..3 positional arguments and 0..3 keywords from CALLSIG_KW_NAMES, every value one of
+    the pool values of CALLSIG_TYPES; ordered by size (fewest arguments first)."""
+    if not _CS_CALLS:
+        import itertools
+
+        vals = [v for _src, v in CALLSIG_TYPES.values()]
+        calls = []
+        for npos in range(4):
+            for pos in itertools.product(vals, repeat=npos):
+                for r in range(len(CALLSIG_KW_NAMES) + 1):
+                    for names in itertools.combinations(CALLSIG_KW_NAMES, r):
+                        for kv in itertools.product(vals, repeat=r):
+                            calls.append((pos, dict(zip(names, kv))))
+        calls.sort(key=lambda c: len(c[0]) + len(c[1]))
+        _CS_CALLS.extend(calls)
+    return _CS_CALLS
+
+
+def callsig_mask(ps) -> int:
+    """Bit j set iff call j of the pool runs on the reference function (binds, every argument inside its annotation)."""
+    ps = tuple(tuple(p) for p in ps)
+    m = _CS_MASK.get(ps)
+    if m is None:
+        f = callsig_function(ps)
+        m = 0
+        for j, (pos, kw) in enumerate(callsig_calls()):
+            try:
+                f(*pos, **kw)
+            except (TypeError, CallSigBad):
+                continue
+            m |= 1 << j
+        _CS_MASK[ps] = m
+    return m
+
+
+# ---------------------------------------------------------------------------
 # rendering as annotation source / evaluation to runtime typing objects
 
 _CLS_NAMES = {
@@ -488,6 +664,8 @@ def cls_name(c) -> str:
 
 
 def lit_source(v) -> str:
+    if isinstance(v, enum.Flag) and v not in list(type(v)):
+        return f"{type(v).__name__}({v._value_})"  # FPerm(6): a composite or zero value has no attribute spelling
     if isinstance(v, enum.Enum):
         return f"{type(v).__name__}.{v.name}"
     if isinstance(v, type):
@@ -564,6 +742,8 @@ def render(t: Ty, style: int = 0) -> str:
         return f"{('type', 'Type')[style]}[{r(t.args[0])}]"
     if k == "Callable":
         return "Callable[..., Any]"
+    if k == "CallSig":
+        return f"CallbackProtocol[({callsig_params_text(t.args[0])}) -> None]"  # a description, not evaluable source
     if k == "Refine":
         return f"Annotated[{r(t.args[0])}, {', '.join(f'{op}:{b}' for op, b in t.extra)}]"
     if k == "AtMost":
@@ -579,6 +759,7 @@ def eval_ns() -> dict:
     if _EVAL_NS is None:
         ns = {"typing": typing}
         ns.update({n: getattr(prelude, n) for n in prelude.__all__})
+        ns.update({n: getattr(prelude, n) for n in prelude.TDI_NAMES})  # generated TypedDict family (not star-exported)
         _EVAL_NS = ns
     return _EVAL_NS
 
